@@ -123,19 +123,11 @@ func init() {
 		lits("soyjs", "state.op"),
 		lits("soyjs", "state.visitSoyFile"),
 	})
-	// soymsg/id.go hash32 with its block loop (fuel: one iteration per 12 bytes of limit-start, stated generously);
-	// the hidden loop names of soyhtml (exec.go, funcs.go)
-	gtFamily("79-gotrans-loops-misc", []gtItem{
-		// template/registry.go: node.Position() of the (immutable) AST node is the parameter m_node_Position
-		it("template", "Registry.LineNumber"),
-		it("template", "Registry.ColNumber"),
-		it("template", "Registry.Filename"),
-		// soyhtml/directives.go: value.String() of the printed value is the parameter f_value_String (abstract callee of
-		// the interface); the rune-boundary loop runs at most maxLen+1 times
-		{dir: "soyhtml", key: "directiveTruncate", cfg: &gtCfg{fuel: map[int]string{1: "maxLen + 2"}}},
-		it("soymsg", "tagName"),
-		{dir: "soymsg", key: "genBasePlaceholderNameFromHtml", cfg: &gtCfg{abstract: []string{"toUpperUnderscore"}}},
-		{dir: "soymsg", key: "hash32", cfg: &gtCfg{fuel: map[int]string{1: "limit - start + 1"}}},
+	// One family per group of properties (bin/check charges an untranslatable shape to the properties whose closure
+	// mentions an identifier of the same family).
+	// soyhtml/scope.go, the loop functions of funcs.go and the hidden loop names of exec.go (Model/Interp.v sc_*, loop_func,
+	// s_index, s_lastindex): C01 C02 C06
+	gtFamily("79-gotrans-soyhtml-scope", []gtItem{
 		it("soyhtml", "scope.push"),
 		it("soyhtml", "scope.pop"),
 		it("soyhtml", "scope.set"),
@@ -149,5 +141,23 @@ func init() {
 		it("soyhtml", "funcIsLast"),
 		{dir: "soyhtml", key: "state.walk", cfg: &gtCfg{initOf: "keyInd", fragVars: [][2]string{{"node", "*ast.ForNode"}}, suffix: "keyInd"}},
 		{dir: "soyhtml", key: "state.walk", cfg: &gtCfg{initOf: "keyLast", fragVars: [][2]string{{"node", "*ast.ForNode"}}, suffix: "keyLast"}},
+	})
+	// template/registry.go: node.Position() of the (immutable) AST node is the parameter m_node_Position: C06 C19
+	gtFamily("80-gotrans-registry", []gtItem{
+		it("template", "Registry.LineNumber"),
+		it("template", "Registry.ColNumber"),
+		it("template", "Registry.Filename"),
+	})
+	// soyhtml/directives.go: value.String() of the printed value is val_string; the rune-boundary loop runs at most
+	// maxLen+1 times: C06 C16
+	gtFamily("81-gotrans-directives", []gtItem{
+		{dir: "soyhtml", key: "directiveTruncate", cfg: &gtCfg{fuel: map[int]string{1: "maxLen + 2"}}},
+	})
+	// soymsg: tagName, the html placeholder name, hash32 with its block loop (fuel: one iteration per 12 bytes of
+	// limit-start, stated generously); lemmas in Proofs/MsgIdSourceTie.v (C10 C11)
+	gtFamily("82-gotrans-soymsg-loops", []gtItem{
+		it("soymsg", "tagName"),
+		{dir: "soymsg", key: "genBasePlaceholderNameFromHtml", cfg: &gtCfg{abstract: []string{"toUpperUnderscore"}}},
+		{dir: "soymsg", key: "hash32", cfg: &gtCfg{fuel: map[int]string{1: "limit - start + 1"}}},
 	})
 }
